@@ -84,6 +84,7 @@ func loadKnown() []KnownFinding {
 type caseJSON struct {
 	Harness string            `json:"harness"`
 	Inputs  map[string]string `json:"inputs"`
+	Repeat  int               `json:"repeat,omitempty"`
 }
 
 type caseResult struct {
@@ -239,7 +240,11 @@ func finish(propID, tier string, cfg *CheckConfig, ld *Loaded, results []*Harnes
 			sort.Strings(keys)
 			for _, k := range keys {
 				v := r.Violations[k]
-				cases = append(cases, caseJSON{Harness: r.Name, Inputs: v.Inputs})
+				rep := 0
+				if v.MapOrder {
+					rep = 60 // the violation depends on Go's (randomised) map iteration order: retry natively
+				}
+				cases = append(cases, caseJSON{Harness: r.Name, Inputs: v.Inputs, Repeat: rep})
 				refs = append(refs, ref{r: r, v: v, kind: "viol"})
 				for _, alt := range v.Alt {
 					cases = append(cases, caseJSON{Harness: r.Name, Inputs: alt})
